@@ -60,6 +60,11 @@ pub struct PlaceCase {
     /// injector, default placement), then install the fake under test
     #[serde(default)]
     pub sibling_first: bool,
+    /// k > 0: the k-th `mprotect` the library makes during the installation under test fails
+    /// (EACCES-like): the installation may refuse (panic, function untouched) or cope, but a fake
+    /// that it reports as installed must be reached
+    #[serde(default)]
+    pub mprotect_fail_at: u8,
 }
 
 #[derive(Serialize, Deserialize, Clone, Debug, Default)]
@@ -139,6 +144,8 @@ pub struct PlaceObs {
     pub priors: u8,
     #[serde(default)]
     pub sibling_faked: bool,
+    #[serde(default)]
+    pub mprotect_fault_hit: bool,
     /// value returned to the call made from the flush hook (None = no such call was made)
     #[serde(default)]
     pub early_value: Option<u64>,
@@ -396,6 +403,9 @@ pub fn execute(c: &PlaceCase) -> PlaceObs {
     }
     // ---- install
     crate::worker::phase("install");
+    if c.mprotect_fail_at > 0 {
+        ip::MPROTECT_FAIL_AT.store(ip::MPROTECT_CALLS.load(SeqCst) + c.mprotect_fail_at as i64, SeqCst);
+    }
     let orig_runs0 = targets::ORIG_RUNS.load(SeqCst);
     let early_val: std::rc::Rc<std::cell::Cell<Option<u64>>> = Default::default();
     if c.early && c.prior.is_empty() {
@@ -419,14 +429,17 @@ pub fn execute(c: &PlaceCase) -> PlaceObs {
             crate::worker::phase("install");
         }));
     }
+    // (the injector lives outside the closure: a refused installation must not drop it - and
+    // restore the earlier installations - while the fault plan of this installation is armed)
+    let mut inj_slot = Some(inj);
     let res = std::panic::catch_unwind(std::panic::AssertUnwindSafe(|| {
         ip::sut(|| {
-            let mut inj = inj;
+            let inj = inj_slot.as_mut().unwrap();
             let inst = match &c.fake {
                 FakeSel::Rust { kind, k } => {
                     let kinds = targets::legal_kinds(target.class);
                     let kind = if kinds.contains(kind) { *kind } else { kinds[*k as usize % kinds.len()] };
-                    targets::install(&mut inj, &target, kind, *k as usize)
+                    targets::install(inj, &target, kind, *k as usize)
                 }
                 FakeSel::Synth { api, .. } | FakeSel::SynthAbs { api, .. } if target.class == Class::A => {
                     let fa = synth_fake.unwrap();
@@ -462,10 +475,20 @@ pub fn execute(c: &PlaceCase) -> PlaceObs {
                     targets::Installed { value: if target.class == Class::B { 1 } else { FAKE_ID as u64 }, dest: Some(fa) }
                 }
             };
-            (inj, inst)
+            inst
         })
     }));
     ip::MODE.store(ip::MODE_PASS, SeqCst);
+    ip::MPROTECT_FAIL_AT.store(0, SeqCst);
+    let res = match res {
+        Ok(inst) => Ok((inj_slot.take().unwrap(), inst)),
+        Err(e) => {
+            // refused: the injector goes away now, with no fault armed
+            let _ = std::panic::catch_unwind(std::panic::AssertUnwindSafe(|| ip::sut(|| drop(inj_slot.take()))));
+            Err(e)
+        }
+    };
+    o.mprotect_fault_hit = ip::MPROTECT_FAILS.load(SeqCst) > 0;
     ip::clear_flush_hook();
     o.early_value = early_val.get();
     o.mmap_calls = ip::MMAP_CALLS.load(SeqCst);
@@ -645,6 +668,11 @@ pub fn strategy_sel(only_async: bool) -> impl Strategy<Value = PlaceCase> {
         let early = early && prior.is_empty() && !matches!(target, TargetSel::RealAsync(_));
         // (derived from the case: a quarter of the synthetic targets get a faked sibling first)
         let sibling_first = matches!(&target, TargetSel::Synth { page, .. } if (page >> 44) % 4 == 0);
-        PlaceCase { target, tramp, fake, callers, prior, early, sibling_first }
+        // (derived from the case: one synthetic placement in eight meets a failing mprotect)
+        let mprotect_fail_at = match &target {
+            TargetSel::Synth { page, .. } if (page >> 50) % 8 == 0 => 1 + ((page >> 53) % 3) as u8,
+            _ => 0,
+        };
+        PlaceCase { target, tramp, fake, callers, prior, early, sibling_first, mprotect_fail_at }
     })
 }
